@@ -433,6 +433,87 @@ Section dom.
       apply Hne. by apply (one_child n t c c').
   Qed.
 
+  (* ---- independence: an input of a grown set that has two tree children is a strict dominator of no member ---- *)
+  Lemma dom_deeper d n : n ∈ dom co → d ∈ SD n → size (SD d) < size (SD n).
+  Proof.
+    intros Hn Hd. assert (SD d ∪ {[d]} ⊆ SD n) as Hsub.
+    { intros x [Hx|Hx]%elem_of_union; [|apply elem_of_singleton in Hx; by subst x].
+      destruct (dom_trans x d n Hx Hd Hn) as [Heq|]; [|done]. subst x. exfalso. by eapply dom_antisym. }
+    apply subseteq_size in Hsub. rewrite size_union in Hsub by (pose proof (SD_irrefl d); set_solver). rewrite size_singleton in Hsub. lia.
+  Qed.
+  Lemma grow_root_dom r S : grow_ok o sd kids (r, S) → r ∈ dom co.
+  Proof.
+    intros (_ & Hroot & _). simpl in Hroot. destruct Hroot as [->|Hl]; [done|]. unfold sg_split_above in Hl.
+    destruct (kids_two r Hl) as (c & _ & _ & Hc & _). by apply kids_elem in Hc as (? & _).
+  Qed.
+  Lemma grow_member_dom r S x : grow_ok o sd kids (r, S) → x ∈ S → x ∈ dom co.
+  Proof.
+    intros Hg Hx. pose proof (grow_root_dom r S Hg) as Hrd. destruct Hg as (_ & _ & _ & Hroute). simpl in Hroute.
+    destruct (Hroute x Hx) as [->|[_ (q & _ & Hq & _)]]; [done|]. by apply kids_elem in Hq as (_ & ? & _).
+  Qed.
+  Lemma strict_inside r S : grow_ok o sd kids (r, S) →
+    ∀ k b, size (SD b) = k → b ∈ S → ∀ a, a ∈ S → a ≠ r → a ∈ SD b → length (K a) = 1.
+  Proof.
+    intros Hg. pose proof (grow_root_dom r S Hg) as Hrd. pose proof Hg as (_ & _ & _ & Hroute). simpl in Hroute.
+    intros k. induction (lt_wf k) as [k _ IH]. intros b Hk Hb a Ha Har Hab.
+    pose proof (grow_member_dom r S b Hg Hb) as Hbd. pose proof (grow_member_dom r S a Hg Ha) as Had.
+    destruct (Hroute b Hb) as [->|[_ (q & HqS & Hq & Hqr)]].
+    - exfalso. destruct (Hroute a Ha) as [|[Hdepth _]]; [done|]. rewrite (sd_of r Hrd), (sd_of a Had) in Hdepth.
+      pose proof (dom_deeper a r Hrd Hab). lia.
+    - pose proof Hq as (Hqd & _ & _ & Hid)%kids_elem. destruct (ID_Some b q Hbd Hid) as [_ HP].
+      destruct (HP a Hab) as [->|Haq].
+      + destruct Hqr as [|HK]; [done|]. unfold K. by rewrite HK.
+      + pose proof (child_deeper b q Hbd Hid). eapply (IH (size (SD q))); try done. lia.
+  Qed.
+  (* a member that is the root, or has at most one tree child, has an operand inside (if it has operands at all) *)
+  Lemma member_operand_inside r S a f : grow_ok o sd kids (r, S) → a ∈ S → size (fanin co a) ≤ 2 → f ∈ fanin co a →
+    (a = r ∨ ¬ 1 < length (K a)) → ∃ f', f' ∈ fanin co a ∧ f' ∈ S.
+  Proof.
+    intros Hg Ha Hsz Hf Hcase. pose proof (grow_member_dom r S a Hg Ha) as Had.
+    pose proof Hg as (Hr & Hroot & Hkids & Hroute). simpl in *. fold K in Hroot. unfold sg_split_above in Hroot.
+    destruct (C1 a f Had Hf) as [Hfd Hrk].
+    assert (∀ x, absorbs kids x ↔ length (K x) = 1) as Habs.
+    { intros x. unfold absorbs, sg_split_above, sg_absorb_at. fold (K x). lia. }
+    destruct (decide (a = o)) as [->|Hao].
+    { assert (o = r) as <-. { destruct (Hroute o Ha) as [|[_ (q & _ & Hq & _)]]; [done|]. apply kids_elem in Hq as (_ & _ & ? & _). done. }
+      exists f. split; [done|]. specialize (Hkids o Hr (or_introl eq_refl)). rewrite Forall_forall in Hkids. apply Hkids.
+      apply kids_elem. split; [done|]. split; [done|]. split; [intros ->; lia|]. by apply root_operand_child. }
+    assert (f ≠ o) as Hfo. { intros ->. pose proof (rank_le_o a Had). lia. }
+    destruct (decide (a = r)) as [->|Har].
+    { destruct Hroot as [|Hl]; [done|]. destruct (two_children_operands r Had Hao Hsz Hl) as [_ Hall].
+      exists f. split; [done|]. specialize (Hkids r Hr (or_introl eq_refl)). rewrite Forall_forall in Hkids. apply Hkids.
+      apply kids_elem. split; [done|]. split; [done|]. split; [done|]. by apply Hall. }
+    destruct Hcase as [|Hl2]; [done|]. exists f. split; [done|].
+    destruct (Hroute a Ha) as [|[_ (q & HqS & Hq & Hqr)]]; [done|].
+    destruct (decide (a ∈ SD f)) as [Hdom|Hndom].
+    - assert (f ∈ K a) as HfK by (apply kids_elem; split; [done|]; split; [done|]; split; [done|]; by apply operand_child).
+      assert (length (K a) = 1) as Hl1. { destruct (K a) as [|? [|? ?]]; simpl in *; [by apply elem_of_nil in HfK|done|lia]. }
+      specialize (Hkids a Ha (or_intror (proj2 (Habs a) Hl1))). rewrite Forall_forall in Hkids. by apply Hkids.
+    - pose proof (operand_sibling a f Had Hao Hf Hndom) as Hsib. pose proof Hq as (Hqd & _ & _ & Hidn)%kids_elem.
+      assert (f ∈ K q) as HfK. { apply kids_elem. split; [done|]. split; [done|]. split; [done|]. by rewrite Hsib. }
+      destruct Hqr as [->|HK].
+      + specialize (Hkids r Hr (or_introl eq_refl)). rewrite Forall_forall in Hkids. by apply Hkids.
+      + unfold K in HfK. rewrite HK in HfK. apply elem_of_list_singleton in HfK. subst f. lia.
+  Qed.
+  (* a frontier input dominates everything upstream of it *)
+  Lemma frontier_dominates a f : a ∈ dom co → a ≠ o → size (fanin co a) ≤ 2 → 1 < length (K a) → f ∈ fanin co a → a ∈ SD f.
+  Proof.
+    intros Ha Hao Hsz Hl Hf. destruct (two_children_operands a Ha Hao Hsz Hl) as [_ Hall]. destruct (C1 a f Ha Hf) as [Hfd _].
+    by destruct (ID_Some f a Hfd (Hall f Hf)).
+  Qed.
+  (* x is "above" an input a of the grown set: it is a, or a is a frontier input that strictly dominates x *)
+  Definition above (r : string) (a x : string) : Prop := x = a ∨ (a ≠ r ∧ 1 < length (K a) ∧ x ∈ dom co ∧ a ∈ SD x).
+  Lemma indep_core r S a b x : grow_ok o sd kids (r, S) → a ∈ S → b ∈ S → a ≠ b → above r a x → above r b x → False.
+  Proof.
+    intros Hg Ha Hb Hab [->|(Har & Hla & Hx & Hax)] [Hxb|(Hbr & Hlb & _ & Hbx)].
+    - done.
+    - pose proof (strict_inside r S Hg _ a eq_refl Ha b Hb Hbr Hbx). lia.
+    - subst x. pose proof (strict_inside r S Hg _ b eq_refl Hb a Ha Har Hax). lia.
+    - destruct (SD_linear x a b Hx Hax Hbx) as [|[Hd|Hd]]; [done| |].
+      + pose proof (strict_inside r S Hg _ b eq_refl Hb a Ha Har Hd). lia.
+      + pose proof (strict_inside r S Hg _ a eq_refl Ha b Hb Hbr Hd). lia.
+  Qed.
+
   (* ---- the traversal reaches every node of the cone ---- *)
   Section traversal.
     Context (gs : list (string * gset string)).
@@ -869,3 +950,120 @@ Section cover.
     eapply kahn_complete; [done|by eapply keyed_nodup|by left].
   Qed.
 End cover.
+
+(* ================================================================ independence of the inputs of a supergate *)
+Section indep.
+  Context (L : circuit) (rank : string → nat).
+  Hypothesis Hclosed : closed L.
+  Hypothesis Hrank : ∀ n i f, L !! n = Some i → f ∈ n_fi i → rank f < rank n.
+  Hypothesis Hbound : ∀ n i, L !! n = Some i → size (n_fi i) ≤ 2.
+  Hypothesis Hsrc : ∀ n i, L !! n = Some i → n_ty i = Input → n_fi i = ∅.
+
+  Lemma reach_source a x : fanin L a = ∅ → reach L x a → x = a.
+  Proof.
+    intros He (k & l & Hp & _). induction Hp as [u Hu | u w v l Hu Hp IH]; [done|]. specialize (IH He). subst w.
+    rewrite He in Hu. by apply elem_of_empty in Hu.
+  Qed.
+
+  Section one_cone.
+    Context (o : string) (HoL : o ∈ dom L).
+    Let co := cone L o.
+    Let av := avoid_table co o.
+    Let sd := sdom_table av.
+    Let kids := kids_of co o sd.
+    Hypothesis Hup : up_ok L o.
+    Hypothesis Hav : avoid_ok co o av.
+
+    Let C1 : ∀ x f, x ∈ dom co → f ∈ fanin co x → f ∈ dom co ∧ rank f < rank x.
+    Proof. intros; eapply cone_C1; eauto. Qed.
+    Let C2 : ∀ P : string → Prop, P o → (∀ x f, x ∈ dom co → P x → f ∈ fanin co x → P f) → ∀ x, x ∈ dom co → P x.
+    Proof. intros; eapply cone_C2; eauto. Qed.
+    Let C3 : o ∈ dom co.
+    Proof. eapply cone_C3; eauto. Qed.
+    Let co_fanin z : z ∈ dom co → fanin co z = fanin L z.
+    Proof. intros Hz. unfold co. eapply cone_fanin; eauto. eapply cone_dom; eauto. Qed.
+    Let co_bound z : size (fanin co z) ≤ 2.
+    Proof.
+      destruct (co !! z) as [k|] eqn:Hk.
+      - unfold fanin. rewrite Hk. simpl. pose proof Hk as Hk'. apply cone_lookup in Hk' as (_ & kL & HkL & _ & Hfi). rewrite Hfi.
+        etrans; [apply subseteq_size; apply intersection_subseteq_l|]. by eapply Hbound.
+      - assert (fanin co z = (∅ : gset string)) as E by (unfold fanin; by rewrite Hk). rewrite E, size_empty. lia.
+    Qed.
+
+    (* everything upstream of a frontier input is strictly dominated by it *)
+    Lemma reach_frontier a x : a ∈ dom co → a ≠ o → 1 < length (adj_of kids a) → reach L x a →
+      x = a ∨ (x ∈ dom co ∧ a ∈ sdom av x).
+    Proof.
+      intros Ha Hao Hl (k & l & Hp & _). induction Hp as [u Hu | u w v l Hu Hp IH]; [by left|]. right.
+      specialize (IH Ha Hao Hl).
+      assert (w ∈ dom co) as Hw by (destruct IH as [->|[? _]]; done).
+      rewrite <- (co_fanin w Hw) in Hu. destruct (C1 w u Hw Hu) as [Hud _]. split; [done|].
+      destruct IH as [->|[_ Hvw]].
+      - by apply (frontier_dominates co o rank C1 C2 C3 Hav v u Ha Hao (co_bound v) Hl).
+      - assert (w ≠ o) as Hwo.
+        { intros ->. eapply SD_elem in Hvw as (_ & _ & Hbad); eauto. apply Hbad. eapply A_o; eauto. }
+        by apply (adj_sub co o rank C1 C2 C3 Hav w u v Hw Hwo Hu).
+    Qed.
+
+    Lemma input_above r S a x : grow_ok o sd kids (r, S) → a ∈ inputs (c_g (mk_sg co r S)) → reach L x a → above co o r a x.
+    Proof.
+      intros Hg (i & Hi & HI)%elem_of_inputs Hreach.
+      assert (∃ i', fix_io (subgraph co S) !! a = Some i' ∧ n_ty i = n_ty i') as (i' & Hi' & Ht).
+      { simpl in Hi. destruct (decide (r = a)) as [->|Hne].
+        - rewrite lookup_alter in Hi. destruct (fix_io _ !! a) as [i'|]; simpl in Hi; [|done]. injection Hi as <-. by exists i'.
+        - rewrite lookup_alter_ne in Hi by done. by exists i. }
+      apply fix_io_lookup' in Hi' as (k & Hk & _ & Hty). apply subgraph_lookup in Hk as (HaS & k0 & Hk0 & ->). simpl in Hty.
+      assert (a ∈ dom co) as Had by (by eapply elem_of_dom_2).
+      pose proof Hk0 as Hk0'. apply cone_lookup in Hk0' as (_ & kL & HkL & HtL & _).
+      destruct (decide (fanin L a = ∅)) as [He|Hne]; [left; by apply reach_source|].
+      assert (fanin co a = n_fi k0) as Hfk by (unfold fanin; by rewrite Hk0).
+      rewrite <- (co_fanin a Had), Hfk in Hne.
+      rewrite HI in Ht. rewrite <- Ht in Hty.
+      assert (is_const (n_ty k0) = false ∧ n_fi k0 ∩ S = ∅) as [Hc Hemp].
+      { destruct (is_const (n_ty k0)) eqn:Hc; [by destruct (n_ty k0)|]. split; [done|]. case_bool_decide; [done|]. exfalso.
+        apply Hne. rewrite <- Hfk, (co_fanin a Had). unfold fanin. rewrite HkL. simpl. apply (Hsrc a kL HkL). congruence. }
+      apply set_choose_L in Hne as [f Hf].
+      assert (a ≠ r ∧ 1 < length (adj_of kids a)) as [Har Hl].
+      { destruct (decide (a = r)) as [->|Har]; [|destruct (decide (1 < length (adj_of kids a))) as [|Hnl]; [done|]]; exfalso.
+        - destruct (member_operand_inside co o rank C1 C2 C3 Hav r S r f Hg HaS (co_bound r)) as (f' & Hf' & Hf'S); [by rewrite Hfk|by left|].
+          rewrite Hfk in Hf'. assert (f' ∈ n_fi k0 ∩ S) as Hb by (by apply elem_of_intersection). rewrite Hemp in Hb. by apply elem_of_empty in Hb.
+        - destruct (member_operand_inside co o rank C1 C2 C3 Hav r S a f Hg HaS (co_bound a)) as (f' & Hf' & Hf'S); [by rewrite Hfk|by right|].
+          rewrite Hfk in Hf'. assert (f' ∈ n_fi k0 ∩ S) as Hb by (by apply elem_of_intersection). rewrite Hemp in Hb. by apply elem_of_empty in Hb. }
+      assert (a ≠ o) as Hao.
+      { intros ->. destruct Hg as (_ & _ & _ & Hroute). simpl in Hroute. destruct (Hroute o HaS) as [|[_ (q & _ & Hq & _)]]; [done|].
+        by apply (kids_elem co o rank C1 C2 C3 Hav) in Hq as (_ & _ & ? & _). }
+      destruct (reach_frontier a x Had Hao Hl Hreach) as [->|[? ?]]; [by left|right; done].
+    Qed.
+  End one_cone.
+
+  Lemma cone_supergates_indep o l sg : o ∈ dom L → cone_supergates L o = Some l → sg ∈ l →
+    ∀ a b x, a ∈ inputs (c_g sg) → b ∈ inputs (c_g sg) → a ≠ b → reach L x a → reach L x b → False.
+  Proof.
+    intros HoL. unfold cone_supergates. case_bool_decide as Hcert; [|done]. destruct Hcert as (Hup & Hav & Hgrow & _).
+    intros Heq Hin. apply (inj Some) in Heq. subst l. apply elem_of_list_fmap in Hin as ([r S] & -> & Hgs). simpl.
+    rewrite Forall_forall in Hgrow. specialize (Hgrow _ Hgs). clear Hgs.
+    intros a b x Ha Hb Hab Hxa Hxb.
+    assert (a ∈ S) as HaS. { apply elem_of_inputs in Ha as (i & Hi & _). apply (mk_sg_dom (cone L o) r S). by eapply elem_of_dom_2. }
+    assert (b ∈ S) as HbS. { apply elem_of_inputs in Hb as (i & Hi & _). apply (mk_sg_dom (cone L o) r S). by eapply elem_of_dom_2. }
+    assert (above (cone L o) o r a x) as Hua by (eapply input_above; eauto).
+    assert (above (cone L o) o r b x) as Hub by (eapply input_above; eauto).
+    assert (∀ x f, x ∈ dom (cone L o) → f ∈ fanin (cone L o) x → f ∈ dom (cone L o) ∧ rank f < rank x) as C1
+      by (intros; eapply cone_C1; eauto).
+    assert (∀ P : string → Prop, P o → (∀ x f, x ∈ dom (cone L o) → P x → f ∈ fanin (cone L o) x → P f) →
+            ∀ x, x ∈ dom (cone L o) → P x) as C2 by (intros; eapply cone_C2; eauto).
+    assert (o ∈ dom (cone L o)) as C3 by (eapply cone_C3; eauto).
+    exact (indep_core (cone L o) o rank C1 C2 C3 Hav r S a b x Hgrow HaS HbS Hab Hua Hub).
+  Qed.
+
+  (* the inputs of every returned supergate have pairwise disjoint transitive fan-in in L (any number of outputs) *)
+  Theorem supergates_independent sgs : supergates L = Ok sgs →
+    Forall (λ sg, ∀ a b x, a ∈ inputs (c_g sg) → b ∈ inputs (c_g sg) → a ≠ b → reach L x a → reach L x b → False) sgs.
+  Proof.
+    unfold supergates. destruct (minimal_supergates L) as [m| | |] eqn:Em; unfold rbind; try done.
+    destruct (kahn (S (length m)) L m []) as [l|] eqn:Ek; [|done]. intros [= <-].
+    rewrite Forall_forall. intros sg ([ok s] & -> & Hp)%elem_of_list_fmap. simpl.
+    destruct (kahn_sub _ _ _ _ _ Ek _ Hp) as [Hin|Hin]; [|by apply elem_of_nil in Hin].
+    destruct (minimal_supergates_from_cones _ _ Em _ Hin) as (o & l' & Ho & Hc & Hl'). simpl in Hl'.
+    eapply cone_supergates_indep; try done. apply elem_of_outputs in Ho as (i & Hi & _). by eapply elem_of_dom_2.
+  Qed.
+End indep.
